@@ -115,13 +115,22 @@ def removeIndicator (h : Hexital F) (name : Option String) : PyM (Hexital F) := 
 /-- `Hexital.append(candles)`: every manager appends – the default manager (which keeps and
 converts the caller's `Candle` objects) LAST, so every other manager copies pristine input – then
 everything is calculated. -/
-def append (h : Hexital F) (new : List (Candle F)) : PyM (Hexital F) := do
+def feedOrder (h : Hexital F) : List String :=
   let keys := h.managers.map (·.1)
-  let order := keys.drop 1 ++ keys.take 1
-  let h ← order.foldlM (fun (h : Hexital F) (k : String) => do
-      let m ← h.manager k
-      let m' ← m.append new
-      return h.setManager k m') h
+  keys.drop 1 ++ keys.take 1
+
+/-- one manager receives the new candles -/
+def feedOne (new : List (Candle F)) (h : Hexital F) (k : String) : PyM (Hexital F) := do
+  let m ← h.manager k
+  let m' ← m.append new
+  return h.setManager k m'
+
+/-- every manager receives the same `new` candles -/
+def feedManagers (h : Hexital F) (new : List (Candle F)) : PyM (Hexital F) :=
+  h.feedOrder.foldlM (feedOne new) h
+
+def append (h : Hexital F) (new : List (Candle F)) : PyM (Hexital F) := do
+  let h ← h.feedManagers new
   h.calculate none
 
 /-- `Hexital.reading(name, index)` -/
